@@ -25,8 +25,6 @@ use crate::rec::{CircuitInfo, CircuitVerdict, FriShape, RecUni};
 const BUS: &str = "custom_bus";
 const P2: Poseidon2Config = Poseidon2Config::KOALA_BEAR_D4_W16;
 
-type RecMmcs = RecValMmcs<F, DIGEST_ELEMS, MyHash, MyCompress>;
-type InnerFri = FriProofTargets<F, Challenge, RecExtensionValMmcs<F, Challenge, DIGEST_ELEMS, RecMmcs>, InputProofTargets<F, Challenge, RecMmcs>, Witness<F>>;
 
 /// Width-2 tables. `Plain`: b = 2a (row-local, no lookups). `Send` / `Recv`: b = a^2 and the pair
 /// (a, b) goes on a global bus. `Step`: next.a = a + b (needs the next row), no lookups.
@@ -244,27 +242,6 @@ const ORDERS: [&[CAir]; 20] = [
     &[CAir::Recv, CAir::Step, CAir::Send],
 ];
 
-/// Verifier-side common data of one custom batch: the AIR list and the lookup contexts.
-pub struct Common {
-    pub airs: Vec<CAir>,
-    pub data: CommonData<MyConfig>,
-    /// the verifier's public values, one list per instance
-    pub pvs: Vec<Vec<F>>,
-}
-
-fn clone_common(c: &CommonData<MyConfig>) -> CommonData<MyConfig> {
-    CommonData::new(
-        c.preprocessed.as_ref().map(|g| p3_batch_stark::common::GlobalPreprocessed { commitment: g.commitment.clone(), instances: g.instances.clone(), matrix_to_instance: g.matrix_to_instance.clone() }),
-        c.lookups.clone(),
-    )
-}
-
-pub struct Built {
-    pub circuit: p3_circuit::Circuit<Challenge>,
-    pub vi: BatchStarkVerifierInputsBuilder<MyConfig, MerkleCapTargets<F, DIGEST_ELEMS>, InnerFri>,
-    pub ids: Vec<p3_circuit::NonPrimitiveOpId>,
-}
-
 fn ext_words(x: &Challenge) -> Vec<u64> {
     crate::gprog::f_to_u64s::<F, Challenge>(x)
 }
@@ -280,28 +257,6 @@ fn corrupt(v: &mut [Challenge], pos: usize, seed: u64) {
     }
 }
 
-pub struct UniBuilt {
-    pub circuit: p3_circuit::Circuit<Challenge>,
-    pub vi: StarkVerifierInputsBuilder<MyConfig, MerkleCapTargets<F, DIGEST_ELEMS>, InnerFri>,
-    pub ids: Vec<p3_circuit::NonPrimitiveOpId>,
-}
-
-/// The verifier's side of the uni-STARK arm: which AIR it verifies and, for `Prep`, its
-/// preprocessed verifying key. Fixed by `uni_prove_fib` for the run (one run = one thread).
-#[derive(Clone)]
-struct UniCtx {
-    air: UAir,
-    vk: Option<PreprocessedVerifierKey<MyConfig>>,
-}
-
-thread_local! {
-    static UNI: std::cell::RefCell<Option<UniCtx>> = const { std::cell::RefCell::new(None) };
-}
-
-fn uni_ctx() -> Result<UniCtx, String> {
-    UNI.with(|u| u.borrow().clone()).ok_or_else(|| "no uni context".to_string())
-}
-
 fn uni_kind(s: &FriShape, log_n: usize) -> CAir {
     match (s.num_queries + s.cap_height + 3 * s.log_blowup + s.commit_pow_bits + log_n) % 6 {
         0 => CAir::Plain,
@@ -314,220 +269,296 @@ fn uni_kind(s: &FriShape, log_n: usize) -> CAir {
     }
 }
 
-pub struct U;
 
-impl RecUni for U {
-    const NAME: &'static str = "U-KB4-CUSTOM";
-    const MIN_LOG_BLOWUP: usize = 1;
-    type Val = F;
-    type UniProof = p3_uni_stark::Proof<MyConfig>;
-    type BatchProof = BatchProof<MyConfig>;
-    type Common = Common;
-    type UniBuilt = UniBuilt;
-    type BatchBuilt = Built;
-
-    fn uni_prove_fib(s: &FriShape, log_n: usize) -> (Self::UniProof, Vec<F>) {
-        let air = UAir(uni_kind(s, log_n));
-        let config = crate::rec::kb4::config(s);
-        let trace = trace_for(air.0, 1 << log_n);
-        let pis = pvs_for(air.0, 1 << log_n);
-        let pre = setup_preprocessed(&config, &air, log_n);
-        let proof = prove_with_preprocessed(&config, &air, trace, &pis, pre.as_ref().map(|(pd, _)| pd));
-        UNI.with(|u| *u.borrow_mut() = Some(UniCtx { air, vk: pre.map(|(_, vk)| vk) }));
-        (proof, pis)
-    }
-    fn uni_native(s: &FriShape, proof: &Self::UniProof, pis: &[F]) -> Result<(), String> {
-        let ctx = uni_ctx()?;
-        match observe(|| verify_with_preprocessed(&crate::rec::kb4::config(s), &ctx.air, proof, pis, ctx.vk.as_ref()).map_err(|e| format!("{e:?}"))) {
-            Ok(r) => r,
-            Err(p) => Err(format!("panic: {p}")),
-        }
-    }
-    fn uni_build(s: &FriShape, proof: &Self::UniProof, n_pis: usize) -> Result<UniBuilt, CircuitVerdict> {
-        let ctx = uni_ctx().map_err(CircuitVerdict::BuildErr)?;
-        let config = crate::rec::kb4::config(s);
-        let built = observe(|| {
-            let mut cb = CircuitBuilder::<Challenge>::new();
-            cb.enable_poseidon2_perm::<KoalaBearD4Width16, _>(generate_poseidon2_trace::<Challenge, KoalaBearD4Width16>, p3_koala_bear::default_koalabear_poseidon2_16());
-            cb.enable_recompose::<F>(generate_recompose_trace::<F, Challenge>);
-            let vi = StarkVerifierInputsBuilder::<MyConfig, MerkleCapTargets<F, DIGEST_ELEMS>, InnerFri>::allocate(&mut cb, proof, ctx.vk.as_ref().map(|vk| &vk.commitment), n_pis);
-            let params = FriVerifierParams::with_mmcs(s.log_blowup, s.log_final_poly_len, s.commit_pow_bits, s.query_pow_bits, P2);
-            let ids = verify_p3_uni_proof_circuit::<UAir, MyConfig, MerkleCapTargets<F, DIGEST_ELEMS>, InputProofTargets<F, Challenge, RecMmcs>, InnerFri, _, WIDTH, RATE>(
-                &config,
-                &ctx.air,
-                &mut cb,
-                &vi.proof_targets,
-                &vi.air_public_targets,
-                &vi.preprocessed_commit,
-                &params,
-                P2,
-            )
-            .map_err(|e| format!("{e:?}"))?;
-            let circuit = cb.build().map_err(|e| format!("{e:?}"))?;
-            Ok::<_, String>(UniBuilt { circuit, vi, ids })
-        });
-        match built {
-            Ok(Ok(x)) => Ok(x),
-            Ok(Err(e)) => Err(CircuitVerdict::BuildErr(e)),
-            Err(p) => Err(CircuitVerdict::BuildPanic(p)),
-        }
-    }
-    fn uni_run_mut(b: &UniBuilt, proof: &Self::UniProof, pis: &[F], m: Option<(bool, usize, u64)>) -> (CircuitVerdict, CircuitInfo) {
-        let mut info = CircuitInfo { ops: b.circuit.ops.len(), public_len: b.circuit.public_flat_len, private_len: b.circuit.private_flat_len, ..Default::default() };
-        let ran = observe(|| {
-            let ctx = uni_ctx()?;
-            let (mut pubs, mut privs) = b.vi.pack_values(pis, proof, &ctx.vk.as_ref().map(|vk| vk.commitment.clone()));
-            if let Some((is_pub, pos, seed)) = m {
-                if is_pub { corrupt(&mut pubs, pos, seed) } else { corrupt(&mut privs, pos, seed) }
-            }
-            let pp: Vec<u64> = pubs.iter().flat_map(ext_words).collect();
-            let pq: Vec<u64> = privs.iter().flat_map(ext_words).collect();
-            let mut r = b.circuit.runner();
-            r.set_public_inputs(&pubs).map_err(|e| format!("{e:?}"))?;
-            r.set_private_inputs(&privs).map_err(|e| format!("{e:?}"))?;
-            set_fri_mmcs_private_data::<F, Challenge, ChallengeMmcs, MyMmcs, MyHash, MyCompress, DIGEST_ELEMS>(&mut r, &b.ids, &proof.opening_proof, P2).map_err(|e| format!("private data: {e}"))?;
-            r.run().map_err(|e| format!("{e:?}"))?;
-            Ok::<_, String>((pp, pq))
-        });
-        match ran {
-            Ok(Ok((pp, pq))) => {
-                info.packed_public = pp;
-                info.packed_private = pq;
-                (CircuitVerdict::Accept, info)
-            }
-            Ok(Err(e)) => (CircuitVerdict::RunErr(e), info),
-            Err(p) => (CircuitVerdict::RunPanic(p), info),
-        }
-    }
-    fn uni_pack(b: &UniBuilt, proof: &Self::UniProof, pis: &[F]) -> Result<(Vec<u64>, Vec<u64>), String> {
-        let ctx = uni_ctx()?;
-        observe(|| {
-            let (pubs, privs) = b.vi.pack_values(pis, proof, &ctx.vk.as_ref().map(|vk| vk.commitment.clone()));
-            (pubs.iter().flat_map(ext_words).collect(), privs.iter().flat_map(ext_words).collect())
-        })
-    }
-    fn ext_degree() -> usize {
-        4
-    }
-    fn gen_program(rng: &mut crate::core::prng::Rng, _cfg: &crate::gprog::GenCfg) -> crate::gprog::Program {
-        // the "program" only carries entropy for the instance list: n public inputs
-        let n = rng.range(0, 63);
-        crate::gprog::Program { calls: (0..n).map(|_| crate::gprog::Call::Public).collect(), publics: (0..n).map(|_| vec![1]).collect(), privates: vec![] }
-    }
-
-    fn batch_prove(s: &FriShape, p: &crate::gprog::Program, public_lanes: usize, alu_lanes: usize) -> Result<(Self::BatchProof, Common, usize), String> {
-        let e = p.calls.len();
-        let mut airs: Vec<CAir> = ORDERS[e % ORDERS.len()].to_vec();
-        // heights: the bus pair shares one height; the others differ from it
-        let min_log = s.log_final_poly_len + 1;
-        let bus_log = min_log + (e / 8) % 3;
-        let other_log = min_log + (public_lanes + alu_lanes) % 4;
-        let log_of = |a: &CAir| match a {
-            CAir::Send | CAir::Recv => bus_log,
-            CAir::Periodic => other_log.max(2),
-            _ => other_log,
-        };
-        for a in airs.iter_mut() {
-            if let CAir::Prep { log_rows, .. } = a {
-                *log_rows = other_log as u8;
-            }
-        }
-        let r = observe(|| {
-            let config = crate::rec::kb4::config(s);
-            let traces: Vec<RowMajorMatrix<F>> = airs.iter().map(|a| trace_for(*a, 1 << log_of(a))).collect();
-            let pvs: Vec<Vec<F>> = airs.iter().zip(traces.iter()).map(|(a, t)| pvs_for(*a, p3_matrix::Matrix::height(t))).collect();
-            let instances: Vec<StarkInstance<'_, MyConfig, CAir>> = airs.iter().zip(traces.iter()).zip(pvs.iter()).map(|((air, trace), pv)| StarkInstance { air, trace, public_values: pv.clone() }).collect();
-            let pd = ProverData::from_instances(&config, &instances);
-            let proof = prove_batch(&config, &instances, &pd);
-            (proof, clone_common(&pd.common), pvs)
-        });
-        match r {
-            Ok((proof, data, pvs)) => Ok((proof, Common { airs: airs.clone(), data, pvs }, airs.len())),
-            Err(p) => Err(format!("panic: {p}")),
-        }
-    }
-
-    fn batch_native(s: &FriShape, proof: &Self::BatchProof, common: &Common) -> Result<(), String> {
-        let pvs = &common.pvs;
-        match observe(|| verify_batch(&crate::rec::kb4::config(s), &common.airs, proof, pvs, &common.data).map_err(|e| format!("{e:?}"))) {
-            Ok(r) => r,
-            Err(p) => Err(format!("panic: {p}")),
-        }
-    }
-
-    fn common_for(_proof: &Self::BatchProof, honest: &Common) -> Common {
-        Common { airs: honest.airs.clone(), data: clone_common(&honest.data), pvs: honest.pvs.clone() }
-    }
-
-    fn batch_pv_len(c: &Common) -> usize {
-        c.pvs.iter().map(Vec::len).sum()
-    }
-
-    fn batch_pv_fault(c: &Common, pos: usize, seed: u64) -> Option<Common> {
-        let mut pvs = c.pvs.clone();
-        let x = pvs.iter_mut().flatten().nth(pos)?;
-        *x += F::from_u64(1 + crate::core::prng::Rng::new(seed, "pv", pos as u64).below(F::ORDER_U64 - 1));
-        Some(Common { airs: c.airs.clone(), data: clone_common(&c.data), pvs })
-    }
-
-    fn batch_build(s: &FriShape, proof: &Self::BatchProof, common: &Common) -> Result<Built, CircuitVerdict> {
-        let config = crate::rec::kb4::config(s);
-        // `allocate` asserts that it is given one public-value count per proof instance: the
-        // verifier knows its AIR list and has to compare first, as verify_p3_batch_proof_circuit
-        // does for circuit proofs
-        if proof.opened_values.instances.len() != common.airs.len() {
-            return Err(CircuitVerdict::BuildErr(format!("InvalidProofShape: {} instances for {} AIRs", proof.opened_values.instances.len(), common.airs.len())));
-        }
-        let built = observe(|| {
-            let mut cb = CircuitBuilder::<Challenge>::new();
-            cb.enable_poseidon2_perm::<KoalaBearD4Width16, _>(generate_poseidon2_trace::<Challenge, KoalaBearD4Width16>, p3_koala_bear::default_koalabear_poseidon2_16());
-            cb.enable_recompose::<F>(generate_recompose_trace::<F, Challenge>);
-            let counts: Vec<usize> = common.pvs.iter().map(Vec::len).collect();
-            let vi = BatchStarkVerifierInputsBuilder::<MyConfig, MerkleCapTargets<F, DIGEST_ELEMS>, InnerFri>::allocate(&mut cb, proof, &common.data, &counts);
-            let params = FriVerifierParams::with_mmcs(s.log_blowup, s.log_final_poly_len, s.commit_pow_bits, s.query_pow_bits, P2);
-            let ids = verify_batch_circuit::<_, _, _, _, _, _, _, WIDTH, RATE>(&config, &common.airs, &mut cb, &vi.proof_targets, &vi.air_public_targets, &params, &vi.common_data, &LogUpGadget::new(), P2)
-                .map_err(|e| format!("{e:?}"))?;
-            let circuit = cb.build().map_err(|e| format!("{e:?}"))?;
-            Ok::<_, String>(Built { circuit, vi, ids })
-        });
-        match built {
-            Ok(Ok(x)) => Ok(x),
-            Ok(Err(e)) => Err(CircuitVerdict::BuildErr(e)),
-            Err(p) => Err(CircuitVerdict::BuildPanic(p)),
-        }
-    }
-
-    fn batch_run_mut(b: &Built, proof: &Self::BatchProof, common: &Common, m: Option<(bool, usize, u64)>) -> (CircuitVerdict, CircuitInfo) {
-        let mut info = CircuitInfo { ops: b.circuit.ops.len(), public_len: b.circuit.public_flat_len, private_len: b.circuit.private_flat_len, ..Default::default() };
-        let ran = observe(|| {
-            let (mut pubs, mut privs) = b.vi.pack_values(&common.pvs, proof, &common.data);
-            if let Some((is_pub, pos, seed)) = m {
-                if is_pub { corrupt(&mut pubs, pos, seed) } else { corrupt(&mut privs, pos, seed) }
-            }
-            let pp: Vec<u64> = pubs.iter().flat_map(ext_words).collect();
-            let pq: Vec<u64> = privs.iter().flat_map(ext_words).collect();
-            let mut r = b.circuit.runner();
-            r.set_public_inputs(&pubs).map_err(|e| format!("{e:?}"))?;
-            r.set_private_inputs(&privs).map_err(|e| format!("{e:?}"))?;
-            set_fri_mmcs_private_data::<F, Challenge, ChallengeMmcs, MyMmcs, MyHash, MyCompress, DIGEST_ELEMS>(&mut r, &b.ids, &proof.opening_proof, P2).map_err(|e| format!("private data: {e}"))?;
-            r.run().map_err(|e| format!("{e:?}"))?;
-            Ok::<_, String>((pp, pq))
-        });
-        match ran {
-            Ok(Ok((pp, pq))) => {
-                info.packed_public = pp;
-                info.packed_private = pq;
-                (CircuitVerdict::Accept, info)
-            }
-            Ok(Err(e)) => (CircuitVerdict::RunErr(e), info),
-            Err(p) => (CircuitVerdict::RunPanic(p), info),
-        }
-    }
-
-    fn batch_pack(b: &Built, proof: &Self::BatchProof, common: &Common) -> Result<(Vec<u64>, Vec<u64>), String> {
-        observe(|| {
-            let (pubs, privs) = b.vi.pack_values(&common.pvs, proof, &common.data);
-            (pubs.iter().flat_map(ext_words).collect(), privs.iter().flat_map(ext_words).collect())
-        })
-    }
+macro_rules! custom_flavor_types {
+    (plain) => {
+        pub use p3_test_utils::koala_bear_params::MyConfig;
+        pub type RecMmcs = RecValMmcs<F, DIGEST_ELEMS, MyHash, MyCompress>;
+        pub type InnerFri = FriProofTargets<F, Challenge, RecExtensionValMmcs<F, Challenge, DIGEST_ELEMS, RecMmcs>, InputProofTargets<F, Challenge, RecMmcs>, Witness<F>>;
+    };
+    (zk) => {
+        pub use crate::rec::kb4zk::{InnerFri, MyConfig, RecMmcs};
+    };
 }
+
+macro_rules! custom_private {
+    (plain, $r:expr, $ids:expr, $op:expr) => {
+        set_fri_mmcs_private_data::<F, Challenge, ChallengeMmcs, MyMmcs, MyHash, MyCompress, DIGEST_ELEMS>($r, $ids, $op, P2)
+    };
+    (zk, $r:expr, $ids:expr, $op:expr) => {
+        set_fri_mmcs_private_data::<F, Challenge, ChallengeMmcs, MyMmcs, MyHash, MyCompress, DIGEST_ELEMS>($r, $ids, &($op).1, P2)
+    };
+}
+
+macro_rules! custom_universe {
+    ($modname:ident, $uname:expr, $flavor:ident, $recmod:ident, $minblow:expr) => {
+        pub mod $modname {
+            use super::*;
+            custom_flavor_types!($flavor);
+
+            /// Verifier-side common data of one custom batch: the AIR list and the lookup contexts.
+            pub struct Common {
+                pub airs: Vec<CAir>,
+                pub data: CommonData<MyConfig>,
+                /// the verifier's public values, one list per instance
+                pub pvs: Vec<Vec<F>>,
+            }
+
+            fn clone_common(c: &CommonData<MyConfig>) -> CommonData<MyConfig> {
+                CommonData::new(
+                    c.preprocessed.as_ref().map(|g| p3_batch_stark::common::GlobalPreprocessed { commitment: g.commitment.clone(), instances: g.instances.clone(), matrix_to_instance: g.matrix_to_instance.clone() }),
+                    c.lookups.clone(),
+                )
+            }
+
+            pub struct Built {
+                pub circuit: p3_circuit::Circuit<Challenge>,
+                pub vi: BatchStarkVerifierInputsBuilder<MyConfig, MerkleCapTargets<F, DIGEST_ELEMS>, InnerFri>,
+                pub ids: Vec<p3_circuit::NonPrimitiveOpId>,
+            }
+
+            pub struct UniBuilt {
+                pub circuit: p3_circuit::Circuit<Challenge>,
+                pub vi: StarkVerifierInputsBuilder<MyConfig, MerkleCapTargets<F, DIGEST_ELEMS>, InnerFri>,
+                pub ids: Vec<p3_circuit::NonPrimitiveOpId>,
+            }
+
+            /// The verifier's side of the uni-STARK arm: which AIR it verifies and, for `Prep`, its
+            /// preprocessed verifying key. Fixed by `uni_prove_fib` for the run (one run = one thread).
+            #[derive(Clone)]
+            struct UniCtx {
+                air: UAir,
+                vk: Option<PreprocessedVerifierKey<MyConfig>>,
+            }
+
+            thread_local! {
+                static UNI: std::cell::RefCell<Option<UniCtx>> = const { std::cell::RefCell::new(None) };
+            }
+
+            fn uni_ctx() -> Result<UniCtx, String> {
+                UNI.with(|u| u.borrow().clone()).ok_or_else(|| "no uni context".to_string())
+            }
+
+            pub struct U;
+
+            impl RecUni for U {
+                const NAME: &'static str = $uname;
+                const MIN_LOG_BLOWUP: usize = $minblow;
+                type Val = F;
+                type UniProof = p3_uni_stark::Proof<MyConfig>;
+                type BatchProof = BatchProof<MyConfig>;
+                type Common = Common;
+                type UniBuilt = UniBuilt;
+                type BatchBuilt = Built;
+
+                fn uni_prove_fib(s: &FriShape, log_n: usize) -> (Self::UniProof, Vec<F>) {
+                    let air = UAir(uni_kind(s, log_n));
+                    let config = crate::rec::$recmod::config(s);
+                    let trace = trace_for(air.0, 1 << log_n);
+                    let pis = pvs_for(air.0, 1 << log_n);
+                    let pre = setup_preprocessed(&config, &air, log_n);
+                    let proof = prove_with_preprocessed(&config, &air, trace, &pis, pre.as_ref().map(|(pd, _)| pd));
+                    UNI.with(|u| *u.borrow_mut() = Some(UniCtx { air, vk: pre.map(|(_, vk)| vk) }));
+                    (proof, pis)
+                }
+                fn uni_native(s: &FriShape, proof: &Self::UniProof, pis: &[F]) -> Result<(), String> {
+                    let ctx = uni_ctx()?;
+                    match observe(|| verify_with_preprocessed(&crate::rec::$recmod::config(s), &ctx.air, proof, pis, ctx.vk.as_ref()).map_err(|e| format!("{e:?}"))) {
+                        Ok(r) => r,
+                        Err(p) => Err(format!("panic: {p}")),
+                    }
+                }
+                fn uni_build(s: &FriShape, proof: &Self::UniProof, n_pis: usize) -> Result<UniBuilt, CircuitVerdict> {
+                    let ctx = uni_ctx().map_err(CircuitVerdict::BuildErr)?;
+                    let config = crate::rec::$recmod::config(s);
+                    let built = observe(|| {
+                        let mut cb = CircuitBuilder::<Challenge>::new();
+                        cb.enable_poseidon2_perm::<KoalaBearD4Width16, _>(generate_poseidon2_trace::<Challenge, KoalaBearD4Width16>, p3_koala_bear::default_koalabear_poseidon2_16());
+                        cb.enable_recompose::<F>(generate_recompose_trace::<F, Challenge>);
+                        let vi = StarkVerifierInputsBuilder::<MyConfig, MerkleCapTargets<F, DIGEST_ELEMS>, InnerFri>::allocate(&mut cb, proof, ctx.vk.as_ref().map(|vk| &vk.commitment), n_pis);
+                        let params = FriVerifierParams::with_mmcs(s.log_blowup, s.log_final_poly_len, s.commit_pow_bits, s.query_pow_bits, P2);
+                        let ids = verify_p3_uni_proof_circuit::<UAir, MyConfig, MerkleCapTargets<F, DIGEST_ELEMS>, InputProofTargets<F, Challenge, RecMmcs>, InnerFri, _, WIDTH, RATE>(
+                            &config,
+                            &ctx.air,
+                            &mut cb,
+                            &vi.proof_targets,
+                            &vi.air_public_targets,
+                            &vi.preprocessed_commit,
+                            &params,
+                            P2,
+                        )
+                        .map_err(|e| format!("{e:?}"))?;
+                        let circuit = cb.build().map_err(|e| format!("{e:?}"))?;
+                        Ok::<_, String>(UniBuilt { circuit, vi, ids })
+                    });
+                    match built {
+                        Ok(Ok(x)) => Ok(x),
+                        Ok(Err(e)) => Err(CircuitVerdict::BuildErr(e)),
+                        Err(p) => Err(CircuitVerdict::BuildPanic(p)),
+                    }
+                }
+                fn uni_run_mut(b: &UniBuilt, proof: &Self::UniProof, pis: &[F], m: Option<(bool, usize, u64)>) -> (CircuitVerdict, CircuitInfo) {
+                    let mut info = CircuitInfo { ops: b.circuit.ops.len(), public_len: b.circuit.public_flat_len, private_len: b.circuit.private_flat_len, ..Default::default() };
+                    let ran = observe(|| {
+                        let ctx = uni_ctx()?;
+                        let (mut pubs, mut privs) = b.vi.pack_values(pis, proof, &ctx.vk.as_ref().map(|vk| vk.commitment.clone()));
+                        if let Some((is_pub, pos, seed)) = m {
+                            if is_pub { corrupt(&mut pubs, pos, seed) } else { corrupt(&mut privs, pos, seed) }
+                        }
+                        let pp: Vec<u64> = pubs.iter().flat_map(ext_words).collect();
+                        let pq: Vec<u64> = privs.iter().flat_map(ext_words).collect();
+                        let mut r = b.circuit.runner();
+                        r.set_public_inputs(&pubs).map_err(|e| format!("{e:?}"))?;
+                        r.set_private_inputs(&privs).map_err(|e| format!("{e:?}"))?;
+                        custom_private!($flavor, &mut r, &b.ids, &proof.opening_proof).map_err(|e| format!("private data: {e}"))?;
+                        r.run().map_err(|e| format!("{e:?}"))?;
+                        Ok::<_, String>((pp, pq))
+                    });
+                    match ran {
+                        Ok(Ok((pp, pq))) => {
+                            info.packed_public = pp;
+                            info.packed_private = pq;
+                            (CircuitVerdict::Accept, info)
+                        }
+                        Ok(Err(e)) => (CircuitVerdict::RunErr(e), info),
+                        Err(p) => (CircuitVerdict::RunPanic(p), info),
+                    }
+                }
+                fn uni_pack(b: &UniBuilt, proof: &Self::UniProof, pis: &[F]) -> Result<(Vec<u64>, Vec<u64>), String> {
+                    let ctx = uni_ctx()?;
+                    observe(|| {
+                        let (pubs, privs) = b.vi.pack_values(pis, proof, &ctx.vk.as_ref().map(|vk| vk.commitment.clone()));
+                        (pubs.iter().flat_map(ext_words).collect(), privs.iter().flat_map(ext_words).collect())
+                    })
+                }
+                fn ext_degree() -> usize {
+                    4
+                }
+                fn gen_program(rng: &mut crate::core::prng::Rng, _cfg: &crate::gprog::GenCfg) -> crate::gprog::Program {
+                    // the "program" only carries entropy for the instance list: n public inputs
+                    let n = rng.range(0, 63);
+                    crate::gprog::Program { calls: (0..n).map(|_| crate::gprog::Call::Public).collect(), publics: (0..n).map(|_| vec![1]).collect(), privates: vec![] }
+                }
+
+                fn batch_prove(s: &FriShape, p: &crate::gprog::Program, public_lanes: usize, alu_lanes: usize) -> Result<(Self::BatchProof, Common, usize), String> {
+                    let e = p.calls.len();
+                    let mut airs: Vec<CAir> = ORDERS[e % ORDERS.len()].to_vec();
+                    // heights: the bus pair shares one height; the others differ from it
+                    let min_log = s.log_final_poly_len + 1;
+                    let bus_log = min_log + (e / 8) % 3;
+                    let other_log = min_log + (public_lanes + alu_lanes) % 4;
+                    let log_of = |a: &CAir| match a {
+                        CAir::Send | CAir::Recv => bus_log,
+                        CAir::Periodic => other_log.max(2),
+                        _ => other_log,
+                    };
+                    for a in airs.iter_mut() {
+                        if let CAir::Prep { log_rows, .. } = a {
+                            *log_rows = other_log as u8;
+                        }
+                    }
+                    let r = observe(|| {
+                        let config = crate::rec::$recmod::config(s);
+                        let traces: Vec<RowMajorMatrix<F>> = airs.iter().map(|a| trace_for(*a, 1 << log_of(a))).collect();
+                        let pvs: Vec<Vec<F>> = airs.iter().zip(traces.iter()).map(|(a, t)| pvs_for(*a, p3_matrix::Matrix::height(t))).collect();
+                        let instances: Vec<StarkInstance<'_, MyConfig, CAir>> = airs.iter().zip(traces.iter()).zip(pvs.iter()).map(|((air, trace), pv)| StarkInstance { air, trace, public_values: pv.clone() }).collect();
+                        let pd = ProverData::from_instances(&config, &instances);
+                        let proof = prove_batch(&config, &instances, &pd);
+                        (proof, clone_common(&pd.common), pvs)
+                    });
+                    match r {
+                        Ok((proof, data, pvs)) => Ok((proof, Common { airs: airs.clone(), data, pvs }, airs.len())),
+                        Err(p) => Err(format!("panic: {p}")),
+                    }
+                }
+
+                fn batch_native(s: &FriShape, proof: &Self::BatchProof, common: &Common) -> Result<(), String> {
+                    let pvs = &common.pvs;
+                    match observe(|| verify_batch(&crate::rec::$recmod::config(s), &common.airs, proof, pvs, &common.data).map_err(|e| format!("{e:?}"))) {
+                        Ok(r) => r,
+                        Err(p) => Err(format!("panic: {p}")),
+                    }
+                }
+
+                fn common_for(_proof: &Self::BatchProof, honest: &Common) -> Common {
+                    Common { airs: honest.airs.clone(), data: clone_common(&honest.data), pvs: honest.pvs.clone() }
+                }
+
+                fn batch_pv_len(c: &Common) -> usize {
+                    c.pvs.iter().map(Vec::len).sum()
+                }
+
+                fn batch_pv_fault(c: &Common, pos: usize, seed: u64) -> Option<Common> {
+                    let mut pvs = c.pvs.clone();
+                    let x = pvs.iter_mut().flatten().nth(pos)?;
+                    *x += F::from_u64(1 + crate::core::prng::Rng::new(seed, "pv", pos as u64).below(F::ORDER_U64 - 1));
+                    Some(Common { airs: c.airs.clone(), data: clone_common(&c.data), pvs })
+                }
+
+                fn batch_build(s: &FriShape, proof: &Self::BatchProof, common: &Common) -> Result<Built, CircuitVerdict> {
+                    let config = crate::rec::$recmod::config(s);
+                    // `allocate` asserts that it is given one public-value count per proof instance: the
+                    // verifier knows its AIR list and has to compare first, as verify_p3_batch_proof_circuit
+                    // does for circuit proofs
+                    if proof.opened_values.instances.len() != common.airs.len() {
+                        return Err(CircuitVerdict::BuildErr(format!("InvalidProofShape: {} instances for {} AIRs", proof.opened_values.instances.len(), common.airs.len())));
+                    }
+                    let built = observe(|| {
+                        let mut cb = CircuitBuilder::<Challenge>::new();
+                        cb.enable_poseidon2_perm::<KoalaBearD4Width16, _>(generate_poseidon2_trace::<Challenge, KoalaBearD4Width16>, p3_koala_bear::default_koalabear_poseidon2_16());
+                        cb.enable_recompose::<F>(generate_recompose_trace::<F, Challenge>);
+                        let counts: Vec<usize> = common.pvs.iter().map(Vec::len).collect();
+                        let vi = BatchStarkVerifierInputsBuilder::<MyConfig, MerkleCapTargets<F, DIGEST_ELEMS>, InnerFri>::allocate(&mut cb, proof, &common.data, &counts);
+                        let params = FriVerifierParams::with_mmcs(s.log_blowup, s.log_final_poly_len, s.commit_pow_bits, s.query_pow_bits, P2);
+                        let ids = verify_batch_circuit::<_, _, _, _, _, _, _, WIDTH, RATE>(&config, &common.airs, &mut cb, &vi.proof_targets, &vi.air_public_targets, &params, &vi.common_data, &LogUpGadget::new(), P2)
+                            .map_err(|e| format!("{e:?}"))?;
+                        let circuit = cb.build().map_err(|e| format!("{e:?}"))?;
+                        Ok::<_, String>(Built { circuit, vi, ids })
+                    });
+                    match built {
+                        Ok(Ok(x)) => Ok(x),
+                        Ok(Err(e)) => Err(CircuitVerdict::BuildErr(e)),
+                        Err(p) => Err(CircuitVerdict::BuildPanic(p)),
+                    }
+                }
+
+                fn batch_run_mut(b: &Built, proof: &Self::BatchProof, common: &Common, m: Option<(bool, usize, u64)>) -> (CircuitVerdict, CircuitInfo) {
+                    let mut info = CircuitInfo { ops: b.circuit.ops.len(), public_len: b.circuit.public_flat_len, private_len: b.circuit.private_flat_len, ..Default::default() };
+                    let ran = observe(|| {
+                        let (mut pubs, mut privs) = b.vi.pack_values(&common.pvs, proof, &common.data);
+                        if let Some((is_pub, pos, seed)) = m {
+                            if is_pub { corrupt(&mut pubs, pos, seed) } else { corrupt(&mut privs, pos, seed) }
+                        }
+                        let pp: Vec<u64> = pubs.iter().flat_map(ext_words).collect();
+                        let pq: Vec<u64> = privs.iter().flat_map(ext_words).collect();
+                        let mut r = b.circuit.runner();
+                        r.set_public_inputs(&pubs).map_err(|e| format!("{e:?}"))?;
+                        r.set_private_inputs(&privs).map_err(|e| format!("{e:?}"))?;
+                        custom_private!($flavor, &mut r, &b.ids, &proof.opening_proof).map_err(|e| format!("private data: {e}"))?;
+                        r.run().map_err(|e| format!("{e:?}"))?;
+                        Ok::<_, String>((pp, pq))
+                    });
+                    match ran {
+                        Ok(Ok((pp, pq))) => {
+                            info.packed_public = pp;
+                            info.packed_private = pq;
+                            (CircuitVerdict::Accept, info)
+                        }
+                        Ok(Err(e)) => (CircuitVerdict::RunErr(e), info),
+                        Err(p) => (CircuitVerdict::RunPanic(p), info),
+                    }
+                }
+
+                fn batch_pack(b: &Built, proof: &Self::BatchProof, common: &Common) -> Result<(Vec<u64>, Vec<u64>), String> {
+                    observe(|| {
+                        let (pubs, privs) = b.vi.pack_values(&common.pvs, proof, &common.data);
+                        (pubs.iter().flat_map(ext_words).collect(), privs.iter().flat_map(ext_words).collect())
+                    })
+                }
+            }
+        }
+    };
+}
+
+custom_universe!(plain, "U-KB4-CUSTOM", plain, kb4, 1);
+custom_universe!(zk, "U-KB4-CUSTOM-ZK", zk, kb4zk, 1);
